@@ -112,6 +112,20 @@ func VX_C17_order() {
 	srt := f.Sort(Order{Column: "e"})
 	vx.Check(srt.index[0] == uint32(n), "null sorts first")
 	vx.Check(vx.Or(vx.And(srt.index[1] == 0, ks[0] <= ks[1]), vx.And(srt.index[1] == 1, ks[1] <= ks[0])), "Sort follows the declared order")
+	// a sort that leaves the first and the last row in place (null last): Slice() and ItemAt agree
+	var frs []QFrame
+	if K <= 3 { // reading cells with a symbolic value index forks per declared value: small lists only
+		frs = []QFrame{srt, f.Sort(Order{Column: "e", NullLast: true}), f.Sort(Order{Column: "e", Reverse: true, NullLast: true})}
+	}
+	for _, fr := range frs {
+		ev := fr.MustEnumView("e")
+		sl := ev.Slice()
+		vx.Check(len(sl) == ev.Len(), "Slice: length")
+		for r := 0; r < ev.Len() && r < len(sl); r++ {
+			p, q := ev.ItemAt(r), sl[r]
+			vx.Check((p == nil) == (q == nil) && (p == nil || *p == *q), "EnumView.Slice agrees with ItemAt on a sorted frame")
+		}
+	}
 	vx.Reach("end")
 }
 
@@ -285,6 +299,44 @@ func VX_C17_csv_declared() {
 	if d.Err == nil {
 		v := d.MustEnumView("e")
 		vx.Check(v.ItemAt(0) != nil && *v.ItemAt(0) == "" && v.ItemAt(1) != nil && *v.ItemAt(1) == c && v.ItemAt(2) != nil && *v.ItemAt(2) == "" && v.ItemAt(3) != nil && *v.ItemAt(3) == c, "derived enum: every cell keeps its value")
+	}
+	vx.Reach("end")
+}
+
+// VX_C17_slice_sorted: an enum column sorted by its declared order where the first and the last row
+// stay in place and the middle rows swap: EnumView.Slice() and ItemAt show the declared order.
+func VX_C17_slice_sorted() {
+	vals := []string{"top", "mid", "low", "zzz"} // declared order, not alphabetical
+	cells := []string{"top", "low", "mid", "zzz"}
+	k := vxConc(vx.IntN(0, 1), 2) // the solver picks which of two layouts
+	if k == 1 {
+		cells = []string{"top", "low", "low", "mid", "zzz"}
+	}
+	data := make([]*string, len(cells))
+	for i := range cells {
+		s := cells[i]
+		data[i] = &s
+	}
+	f := New(map[string]interface{}{"e": data}, newqf.Enums(map[string][]string{"e": vals}))
+	srt := f.Sort(Order{Column: "e"})
+	vx.Check(srt.Err == nil, "Sort: no error")
+	ev := srt.MustEnumView("e")
+	sl := ev.Slice()
+	rank := func(s string) int {
+		for i, v := range vals {
+			if v == s {
+				return i
+			}
+		}
+		return -1
+	}
+	vx.Check(len(sl) == len(cells), "Slice: length")
+	for r := 0; r < len(sl); r++ {
+		p := ev.ItemAt(r)
+		vx.Check(p != nil && sl[r] != nil && *p == *sl[r], "EnumView.Slice agrees with ItemAt on a sorted frame")
+		if r > 0 && sl[r] != nil && sl[r-1] != nil {
+			vx.Check(rank(*sl[r-1]) <= rank(*sl[r]), "Slice shows the declared order")
+		}
 	}
 	vx.Reach("end")
 }
